@@ -17,9 +17,32 @@ type c06Oracle struct {
 	reached int
 	classes map[string]bool
 	role    string
+	// every > 0: after every every-th entry the instance is replaced by what a node that restores
+	// a snapshot holds (Marshal + Unmarshal): "any reachable state" includes the states of
+	// restarted nodes and of followers that installed a snapshot
+	every      int
+	roundtrips int
 }
 
-func (o *c06Oracle) begin(i *IRCServer, c *hcase, rt *rapid.T) { o.classes = map[string]bool{} }
+func (o *c06Oracle) begin(i *IRCServer, c *hcase, rt *rapid.T) {
+	o.classes = map[string]bool{}
+	o.every = param(c, rt, "restore_every", 0, 12)
+	if o.every == 1 {
+		o.every = 0 // half of the weight of "never" comes from here
+	}
+}
+
+func (o *c06Oracle) replace(i *IRCServer, idx int) (*IRCServer, *vh.Failure) {
+	if o.every == 0 || (idx+1)%o.every != 0 {
+		return i, nil
+	}
+	b, err := roundTrip(i)
+	if err != nil {
+		return i, nil // serialization errors are C03's subject
+	}
+	o.roundtrips++
+	return b, nil
+}
 
 func (o *c06Oracle) pre(i *IRCServer, idx int, e ircgen.Entry) {
 	o.role = "absent"
@@ -107,7 +130,11 @@ func (o *c06Oracle) end(i *IRCServer) *vh.Failure { return nil }
 func (o *c06Oracle) nontrivial() (bool, []string) {
 	o.rec.Count("lines_that_reached_a_handler", int64(o.reached))
 	o.rec.Count("distinct_command_role_outcome_classes_per_history_sum", int64(len(o.classes)))
-	return o.reached >= 3, nil
+	var l []string
+	if o.roundtrips > 0 {
+		l = append(l, "c06:lines-applied-to-a-restored-state")
+	}
+	return o.reached >= 3, l
 }
 
 func TestVerifC06(t *testing.T) {
